@@ -351,9 +351,11 @@ def random_case():
     })
 
 
+HYP = {"run": (lambda ctx: random_case(), check_run)}
+
 def run(ctx):
     quick = ctx.tier == "quick"
     ctx.parallel("shard", [(i, 16, ctx.tier) for i in range(16)])
     ctx.exhaustive("run", False, "product of outcome kinds x verbosity x ANSI (see rule); Hypothesis part is sampled")
-    ctx.hyp(random_case(), lambda c: check_run(ctx, c), 400 if quick else 20000, salt=1)
+    ctx.hyp_sharded("run", 4000 if quick else 40000, salt=1)
     raisers.cleanup()
